@@ -187,6 +187,9 @@ def parse_effective(line):
 # ---------------------------------------------------------------------------
 # probes
 
+ODD_VERSIONS = ["2.2", "v21", "2.1 ", "1.0"]
+
+
 def cfg_grid(entry, tier):
     versions = [{}, {"version": "2.0"}, {"version": "2.1"}]
     allows = [{}, {"allow_custom": True}, {"allow_custom": False}]
@@ -266,6 +269,22 @@ def gen_probes(run, reg):
                 continue
             for vname, d in variants(base, ver, kind):
                 probes.append({"cid": cid, "ver": ver, "kind": kind, "variant": vname, "data": d})
+            if kind == "bundle":
+                # members of the other version / members whose version only detection decides
+                extra = []
+                for ocid, strip in (("2.1/File", True), ("2.1/Identity", False), ("2.0/Identity", False), ("2.1/IPv4Address", True)):
+                    try:
+                        m = g.obj(ocid)
+                        json.dumps(m)
+                    except Exception:  # noqa: BLE001
+                        continue
+                    if strip:
+                        m = {k_: v_ for k_, v_ in m.items() if k_ != "spec_version"}
+                    extra.append((ocid, m))
+                for ocid, m in extra:
+                    d = dict(base)
+                    d["objects"] = [m]
+                    probes.append({"cid": cid, "ver": ver, "kind": kind, "variant": "member:" + ocid + ("-no-spec-version" if "spec_version" not in m and ocid.startswith("2.1") else ""), "data": d})
     return probes
 
 
@@ -291,7 +310,7 @@ def bundle_fn(cfg):
 
 
 def model_key(e, cfg):
-    return (e, json.dumps({k: v for k, v in cfg.items() if k not in ("wrap", "form")}, sort_keys=True))
+    return (e, json.dumps({k: v for k, v in cfg.items() if k not in ("wrap", "form", "ctor_version")}, sort_keys=True))
 
 
 def outcomes_equal(a, b):
@@ -633,6 +652,18 @@ def check(run):
                             p["variant"] == "base" and cfg["allow_custom"] is False):
                         continue
                 plan.append((pi, e, cfg))
+                if cfg.get("version") == "2.1" and "interoperability" not in cfg and cfg.get("allow_custom") is not False and (
+                        p["variant"] in ("witness", "base") and (run.tier == "thorough" or pi % 2 == 0 or p["variant"] == "witness")):
+                    # the version argument outside its domain: an unsupported version string on every entry point
+                    for ov in ODD_VERSIONS:
+                        plan.append((pi, e, dict(cfg, version=ov)))
+                if e in ("memory.MemoryStore.add", "memory.MemorySink.add", "memory.MemoryStore.load_from_file",
+                         "memory.MemorySource.load_from_file") and "allow_custom" not in cfg \
+                        and p["variant"] in ("witness", "base", "v1-uuid", "no-spec-version", "spec-version-added"):
+                    # history: the version given to the constructor x the version given to the call
+                    for cv in ("2.0", "2.1"):
+                        if cv != cfg.get("version"):
+                            plan.append((pi, e, dict(cfg, ctor_version=cv)))
                 if e in MEM_ENTRIES and p["variant"] in ("witness", "zero-uuid", "v1-uuid") and "allow_custom" not in cfg:
                     for w in (("bundle", "list") if not e.endswith("load_from_file") else ("bundle",)):
                         c2 = dict(cfg)
@@ -753,9 +784,11 @@ def check(run):
     order = sorted(by_probe)
     for pi in order:
         p = probes[pi]
-        direct = [["parse", ac, io_, v] for ac, io_, v in DIRECT_GRID]
+        odd = sorted({cfg["version"] for _e, cfg in by_probe[pi] if cfg.get("version") not in (None, "2.0", "2.1")})
+        grid = DIRECT_GRID + [(ac, io_, v) for ac in (False, True) for io_ in (False, True) for v in odd]
+        direct = [["parse", ac, io_, v] for ac, io_, v in grid]
         if p["kind"] == "observable":
-            direct += [["parse_observable", ac, io_, v] for ac, io_, v in DIRECT_GRID]
+            direct += [["parse_observable", ac, io_, v] for ac, io_, v in grid]
         case = {"op": "probe", "data": p["data"], "entries": [[e, cfg] for e, cfg in by_probe[pi]], "direct": direct}
         if any(whole_bundle(e, cfg) for e, cfg in by_probe[pi]):
             case["direct_bundle"] = [[ac, io_, v] for ac, io_, v in DIRECT_GRID]
@@ -830,6 +863,8 @@ def check(run):
                     known_cls = FINDING_TAXII_SINK_WRAP
                 elif not md["taxii_sink_dict_parses"] and cfg.get("wrap") in (None, "list"):
                     known_cls = FINDING_TAXII_SINK_DICT       # a plain dict goes into v2x.Bundle(..) and never meets parse(.., version)
+            if v is not None and v not in ("2.0", "2.1") and whole_bundle(e, cfg):
+                continue
             # oracle: the property itself (a version is named)
             if v is not None and not whole_bundle(e, cfg) and out[0] in ("ok", "exc") and out[-1] is not None \
                     and v not in out[-1]:
@@ -1420,7 +1455,9 @@ def replay(payload):
     r = payload["replay"]
     if r.get("kind") == "entry":
         e, cfg, d = r["entry"], r["cfg"], r["data"]
-        direct = [["parse", ac, io_, v] for ac, io_, v in DIRECT_GRID] + [["parse_observable", ac, io_, v] for ac, io_, v in DIRECT_GRID]
+        rgrid = DIRECT_GRID + ([(ac, io_, cfg["version"]) for ac in (False, True) for io_ in (False, True)]
+                               if cfg.get("version") not in (None, "2.0", "2.1") else [])
+        direct = [["parse", ac, io_, v] for ac, io_, v in rgrid] + [["parse_observable", ac, io_, v] for ac, io_, v in rgrid]
         res = common.run_impl("c14_impl", [{"op": "probe", "data": d, "entries": [[e, cfg]], "direct": direct,
                                             "direct_bundle": [list(x) for x in DIRECT_GRID],
                                             "direct_bundle1": [list(x) for x in DIRECT_GRID]}], procs=1,
